@@ -135,13 +135,13 @@ func VerifC28_tp_roundtrip() {
 
 func c28tpLen() int {
 	if vfTier() > 0 {
-		return 8
+		return 7
 	}
 	return 6
 }
 
 func VerifC28_tp_bytes() {
-	// either 0..6 (thorough 8) arbitrary bytes, or one parameter whose value fills 3..10 bytes (room for 8-byte varints)
+	// either 0..6 (thorough 7) arbitrary bytes, or one parameter whose value fills 3..10 bytes (room for 8-byte varints)
 	var b []byte
 	if vfBool("single") {
 		n := vfLen("vlen", 3, 10)
